@@ -11,6 +11,7 @@ MODULES = {
     'C13': 'p_mutex', 'C17': 'p_ptr',
     'C08': 'p_fault',
     'C16': 'p_cfg',
+    'C03': 'p_olc', 'C04': 'p_olc', 'C09': 'p_olc', 'C14': 'p_olc',
 }
 
 
